@@ -90,6 +90,68 @@ def namespace_writers(P, res):
     res.floor("NAMESPACE-WRITERS", "functions storing StackFrame.namespace", n_w, 5)
 
 
+def _vec_literal_len(g, op):
+    """number of elements of the `vec![..]` literal an operand resolves to (0 for Vec::new()), else None."""
+    import re as _re
+    r = g.root_of(op, through_named=True)
+    if r[0] != "call":
+        return None
+    n = M.callee_name(r[2]) or ""
+    if n.endswith("Vec::<T>::new") or n.endswith("Vec::<T, A>::new"):
+        return 0
+    if n.endswith("box_assume_init_into_vec_unsafe") or n.endswith("into_vec"):
+        m = _re.search(r";\s*(\d+)\]", " ".join(r[2].get("argtys") or []))
+        return int(m.group(1)) if m else None
+    return None
+
+
+def sentinel_lengths(P, res, state):
+    """a field that :abort resets with truncate(k) must be created with exactly k elements: the reset assumes the first k
+    entries are the frame's own placeholders, not values of an evaluation."""
+    f = P.require_fn("env::Stack::new")
+    agg = None
+    for b in f.blocks:
+        for st in b["stmts"]:
+            if st.get("s") == "assign" and st["rv"]["k"] == "agg" and st["rv"].get("adt") == "env::StackFrame":
+                agg = st["rv"]
+    if agg is None:
+        raise M.MissingAnchor("env::Stack::new does not build a StackFrame")
+    for path, spec in sorted(state.items()):
+        ks = [int(a[len("truncate("):-1]) for a in spec["accept"] if a.startswith("truncate(")]
+        if not ks:
+            continue
+        parts = path.split(".")
+        g, cur = f, agg
+        n_ = None
+        for i, part in enumerate(parts):
+            if part not in cur["fields"]:
+                break
+            op = cur["ops"][cur["fields"].index(part)]
+            if i == len(parts) - 1:
+                n_ = _vec_literal_len(g, op)
+                break
+            r = g.root_of(op, through_named=True)
+            if r[0] != "call" or M.callee_name(r[2]) not in P.funcs:
+                break
+            g = P.funcs[M.callee_name(r[2])]
+            cur = None
+            for b in g.blocks:
+                for st in b["stmts"]:
+                    if st.get("s") == "assign" and st["rv"]["k"] == "agg" and st["rv"].get("ak") == "adt" and part.capitalize() in str(st["rv"].get("adt", "")).split("::")[-1]:
+                        cur = st["rv"]
+            if cur is None:
+                break
+        key = "env::Stack::new # %s" % path
+        if n_ is None:
+            res.bad("FRAME-COVER", key + " # initial length unknown", "cannot see how many elements `%s` of the toplevel frame starts with; :abort's truncate(%d) assumes exactly %d" % (path, ks[0], ks[0]), f.loc())
+        elif n_ not in ks:
+            res.bad("FRAME-COVER", key + " # starts with %d" % n_,
+                    "the toplevel frame's `%s` starts with %d element(s), but :abort resets it with truncate(%d): the first value(s) an evaluation leaves there "
+                    "survive the abort" % (path, n_, ks[0]), f.loc())
+        else:
+            res.ok("FRAME-COVER", key + ": starts with %d element(s), as truncate(%d) assumes" % (n_, n_))
+
+
 def frame_cover(P, res):
     """FRAME-COVER (shared with C09): pop_to_toplevel resets every per-evaluation field of the surviving frame."""
     table = json.load(open(os.path.join(VERIF, "tables", "c10_frame_fields.json")))
@@ -122,6 +184,7 @@ def frame_cover(P, res):
         res.ok("FRAME-COVER", "pop_to_toplevel: frames above the top level are dropped (self.0.truncate(1))")
     else:
         res.bad("FRAME-COVER", "env::Stack::pop_to_toplevel # frames", "pop_to_toplevel does not truncate the frame stack to the single top-level frame", f.loc())
+    sentinel_lengths(P, res, state)
     # every path that does not return early performs every reset: reset blocks dominate the normal return
     rets = [bi for bi in f.reachable_blocks() if f.blocks[bi]["term"]["t"] == "return"]
     for name, ty in fields:
@@ -190,6 +253,12 @@ def frame_cover(P, res):
 def run(ctx, res):
     P = ctx.P
     frame_cover(P, res)
+    # truncate(1) on the toplevel frame's binding blocks keeps "the toplevel variables" only if block 0 is the toplevel block,
+    # i.e. if every block pushed by an evaluation has been popped or is still owed by a pending entry: C06's discipline.
+    # Its rules are run here too, because a block leaked at the top level turns `:abort` into a loss of toplevel variables.
+    from . import c06 as _c06
+    _c06.run(ctx, res)
+    _extra = dict(res.extra)
     # ---- ABORT-CALLS
     rc = P.require_fn("commands::run_command")
     pops = [bi for bi, t in rc.calls() if M.callee_name(t) == "env::Stack::pop_to_toplevel"]
